@@ -25,6 +25,7 @@ case "$1" in
   C18) run python3-vt checks/c18.py ;;
   C19) run python3-vt checks/c19.py ;;
   C20) run python3-vt checks/c20.py ;;
+  C11) run python3-vt checks/c11.py ;;
   C12) run python3-vt checks/c12.py ;;
   C13) run python3-vt checks/c13.py ;;
   C14) run python3-vt checks/c14.py ;;
